@@ -26,9 +26,8 @@ GStep == /\ ~done /\ Len(hist) < MaxLen
          /\ UNCHANGED <<init, done>>
 
 GStepR == /\ ~done /\ Len(hist) < MaxLen
-          /\ LET c == RandomElement(CID)
-                 e == RandomElement(EventsFor(c, orders[c]))
-             IN Apply(e)
+          \* (bound through singleton sets: a LET would re-draw at every reference)
+          /\ \E c \in {RandomElement(CID)} : \E e \in {RandomElement(EventsFor(c, orders[c]))} : Apply(e)
           /\ hist' = Append(hist, last')
           /\ UNCHANGED <<init, done>>
 
